@@ -461,6 +461,19 @@ _SENT = None
 
 
 def grammar_sentences():
+    """The responses read off the current translation (grammar_sentences_live) together with the fixed set computed on
+    the pinned tree (corpus/SENT/sentences.txt): a change that makes part of the grammar untranslatable takes the live
+    sentences through that part away, the fixed ones stay."""
+    live = grammar_sentences_live()
+    static = []
+    try:
+        static = [l.strip() for l in open(os.path.join(ROOT, "corpus", "SENT", "sentences.txt")) if l.strip()]
+    except FileNotFoundError:
+        pass
+    return sorted(set(live) | set(static))
+
+
+def grammar_sentences_live():
     """Whole responses read off the grammar as it is translated now (coq/Synth.v, extracted into the driver): for every
     parser function reachable from the top, sentences that between them take every alternative and repetition shape
     written in that function.  They follow the code, so they also reach rules the harness's generators have never
